@@ -137,16 +137,18 @@ def replay_meta_orders(item):
         body = ['TYPE::"TEST"', 'VERSION::"1.0"'] + meta
         texts += ["===DOC===\nMETA:\n" + "".join("  %s\n" % b for b in body) + "\nA::1\n===END===\n",
                   "===DOC===\nMETA:\n" + "".join("    %s\n" % b.replace("::", " :: ") for b in body) + "\nA :: 1\n"]
+    from octave_mcp.mcp.validate import ValidateTool
     for text in texts:
         plain = emit(parse_with_warnings(text)[0])
-        for order in itertools.permutations(PROFILES):
+        # the reference verdicts (first record of the group, bound by the memo): every call on a tool that has served nothing before
+        for order in [None] + list(itertools.permutations(PROFILES)):
             obs = []
-            for prof in order:
-                r = run_async(vt.execute(content=text, schema="META", profile=prof))
+            for prof in (order or PROFILES):
+                r = run_async((vt if order else ValidateTool()).execute(content=text, schema="META", profile=prof))
                 ve = r.get("validation_errors", [])
                 obs.append({"route": "octave_validate_meta%d" % (texts.index(text) // 2), "profile": prof, "status": str(r.get("validation_status")),
                             "pairs": sorted({"%s@%s" % (e.get("code"), e.get("field")) for e in ve}), "readonly": r.get("canonical") == plain, "stable": True})
-            out.append({"gid": gid, "case": base, "kind": "profile order %s" % "/".join(order), "obs": obs, "text": text})
+            out.append({"gid": gid, "case": base, "kind": "profile order %s" % "/".join(order or ["fresh tool per call"]), "obs": obs, "text": text})
     return out
 
 
